@@ -476,6 +476,11 @@ func (v *visitor) checkFunc(fn reflect.Type, method bool, node ast.Node, name st
 			// must keep their own type, as in an untyped compilation.
 			t = interfaceType
 		} else if isIntegerOrArithmeticOperation(arg) && isInteger(t) && !isInterface(t) && isNumber(in) && !isInterface(in) {
+			// As for Go's untyped constants, a literal that does not fit
+			// the parameter's type is an error, not a silent wrap-around.
+			if lit, ok := overflowingLiteral(arg, in, false); ok {
+				return v.error(lit, "constant %v overflows %v", lit.Value, in)
+			}
 			t = in
 			setTypeForIntegers(arg, t)
 		}
